@@ -4,29 +4,36 @@ from vlib import std, hbuild, coq, common
 
 PID = "C36"
 META = {
-    "text": "Theorems (Properties_C36.v, closed under the global context) about a line-by-line Gallina model of lib/base64.cc "
-            "(encode_raw / encode_update / encode_final, decode_single / decode_update / decode_final with the 16-bit word and "
-            "8-bit counters of the C structs) and of Auth::Basic::Config::decodeCleartext + the user/password split of "
-            "Auth::Basic::Config::decode: for ALL byte strings and ALL ways of cutting the input into update() calls the encoder "
-            "output is the RFC 4648 encoding; decoding it (again under any cutting, with any white space inserted) returns the "
-            "input exactly; every decode_update call from any reachable context stores at most BASE64_DECODE_LENGTH(src_length) "
-            "bytes whether it accepts or rejects, never reaches the abort() arm; any invalid character, any data after '=', any "
-            "non-zero left-over bits and any truncated quantum are rejected; the accepted language is characterised exactly. "
-            "Basic: for credentials without NUL/CR/LF the result is (bytes before the first colon [lower-cased unless "
-            "casesensitive], bytes after it). The tables (alphabet, 256-entry decode table, length macros, struct field sizes) "
-            "are regenerated from lib/base64.cc, include/base64.h and the linked libnettle on every run and the theorems are "
-            "re-checked against them; the model is tied to the code by differential runs of the extracted model against the "
-            "bundled copy compiled from the working tree, the libnettle functions squid links, and the real "
-            "Auth::Basic::Config::decode()/decodeCleartext() (src/auth/basic/Config.cc included into the harness unit and "
-            "linked with the in-tree squid objects), under ASan+UBSan with guard-zone write detection.",
-    "note": "Findings kept as _refuted theorems and known findings: (1) 'A===' (one zero symbol + three '=') is accepted as the "
-            "empty quantum by both the bundled copy and libnettle 3.8; (2) a NUL inside decoded Basic credentials silently "
-            "truncates user name / password (C strings). White space (HT LF VT FF CR SP) inside base64 is skipped by design of "
-            "the decoder and is not counted as malformed. utf8=on transcoding in decodeCleartext is not modelled (utf8 is off in "
-            "the harness, the default). Trusted: Coq kernel, extraction, gen/gen_b64.cc, harness/h_b64.cc + h_b64_basic.h.",
-    "technique": "Coq proof (induction over triples/quanta, simulation invariant between decoder state and streaming encoder, "
-                 "lia over div/mod; vm_compute sweeps over the regenerated 64/256-entry tables) + extracted-model differential "
-                 "correspondence + exhaustive implementation sweep of all strings of length <= 3",
+    "text": "18 theorems (Properties_C36.v, all closed under the global context) about a line-by-line Gallina model of "
+            "lib/base64.cc (encode_raw written back to front, encode_single/update/final, decode_single/update/final with the "
+            "16-bit word and the 8-bit bits/padding counters of the C structs) and of Auth::Basic::Config::decodeCleartext plus the "
+            "user:password split of Auth::Basic::Config::decode. For ALL byte strings and ALL ways of cutting the input into "
+            "update() calls: the encoder output is the RFC 4648 encoding (spec written from the RFC over the literal alphabet); "
+            "decoding it, again under any cutting and with any white space interleaved, returns the input exactly; the decoder's "
+            "verdict and output do not depend on the cutting; every decode_update call from any reachable context stores at most "
+            "BASE64_DECODE_LENGTH(src_length) bytes whether it accepts or rejects and never reaches the abort() arm; the accepted "
+            "language is characterised exactly (accepted => canonical encoding of the output, or that followed by the quirk "
+            "'A==='); any byte outside alphabet/'='/white space is rejected. Basic: for credentials without NUL/CR/LF the result of "
+            "the whole path scheme SP base64 [LF ...] is (bytes before the first colon, lower-cased unless casesensitive; bytes "
+            "after it). Tables (alphabet, 256-entry decode table, the four length macros, struct field sizes; bundled copy and the "
+            "linked libnettle) are regenerated from the code on every run and the theorems re-checked against them. The model is "
+            "tied to the code by differential runs of the extracted model against (a) the bundled copy compiled from the working "
+            "tree inside the harness unit (HAVE_NETTLE_BASE64_H forced to 0), (b) the libnettle functions squid links, (c) the real "
+            "Auth::Basic::Config::decodeCleartext()/decode() (src/auth/basic/Config.cc #included into the harness unit, linked with "
+            "every in-tree squid object except main.o) under ASan+UBSan with guard-zone write detection; all 16.7M strings of "
+            "length 3 are swept on both implementations on every run.",
+    "note": "Findings kept as _refuted theorems + known findings: (1) C36-A-triple-pad: 'A===' (one zero symbol + three '=') is "
+            "accepted as an empty quantum by the bundled copy and by libnettle 3.8 (C36_strict_rejection_refuted; "
+            "C36_malformed_rejected_partial excludes exactly that suffix); (2) C36-basic-nul-truncation: a NUL inside decoded Basic "
+            "credentials silently truncates user name / password and hides CR/LF behind it (C36_basic_split_refuted_by_nul; "
+            "C36_basic_credentials_partial assumes no NUL). White space (HT LF VT FF CR SP) inside base64 is skipped by design of "
+            "the decoder and is not counted as malformed. Not modelled: the utf8=on transcoding branch of decodeCleartext (utf8 is "
+            "off in the harness, the default); the user cache side effects of decode(). Trusted: Coq kernel, extraction, "
+            "gen/gen_b64.cc, harness/h_b64.cc + harness/h_b64_basic.h (four no-op symbols of main.cc are supplied there).",
+    "technique": "Coq proof (induction over triples/quanta, forward simulation encoder-context ~ streaming spec, inversion of "
+                 "the decoder step for the accepted-language theorem, lia over div/mod; vm_compute sweeps over the regenerated "
+                 "64/256-entry tables) + extracted-model differential correspondence + exhaustive implementation sweep of all "
+                 "strings of length <= 3 judged by an independent Python oracle",
 }
 
 # the in-tree squid objects (everything the squid binary links except main.o and the dlopen module loader);
